@@ -96,10 +96,75 @@ def same_bits(a, b):
     return all((x == y) or (x != x and y != y) for x, y in zip(a.ravel(), b.ravel()))
 
 
+def problem_level(pc):
+    """None: the case is rejected as malformed by the implementation; "": fine; text: failure"""
+    import impl
+    from cobyqa.main import _get_constraints
+    objs = pc["objs"]
+    for o in objs:
+        o["lims"] = [tuple(float(v) for v in p) for p in o["lims"]]
+    lo, hi, x0 = np.array(pc["lo"], float), np.array(pc["hi"], float), np.array(pc["x0"], float)
+    cons = [LinearConstraint(np.array(o["A"], float), [l for l, _ in o["lims"]], [u for _, u in o["lims"]]) for o in objs]
+    try:
+        with warnings.catch_warnings():
+            warnings.simplefilter("ignore")
+            pb = impl.make_problem(lambda x: 0.0, x0, bounds=Bounds(lo, hi), linear=_get_constraints(cons)[0], scale=pc["scale"])
+            u = np.array(pc["u"], float)[~(lo == hi)]
+            z = pb.bounds.xl + u * (pb.bounds.xu - pb.bounds.xl)
+            xu_ = pb.build_x(z)
+            internal = float(pb.maxcv(z))
+    except (ValueError, TypeError):
+        return None
+    truth, slack = 0.0, 0.0
+    for o in objs:
+        truth = max(truth, true_violation(o["lims"], np.array(o["A"], float) @ xu_))
+        slack = max([slack] + [0.5 * abs(b - a) for a, b in o["lims"] if np.isfinite(a) and np.isfinite(b) and abs(b - a) <= 1e-9 * max(1.0, abs(a), abs(b))])
+    fin = [abs(v) for o in objs for p in o["lims"] for v in p if np.isfinite(v)]
+    sc = max([1.0, abs(truth), 10 * float(np.max(np.abs(xu_)))] + fin)
+    if not abs(internal - truth) <= slack + 1e-9 * sc:
+        return (f"problem level (bounds {lo.tolist()} {hi.tolist()}, scale {pc['scale']}, x0 {x0.tolist()}): the violation computed at the internal point "
+                f"{z.tolist()} is {internal!r} but A x leaves its limits by {truth!r} at the user point {xu_.tolist()}")
+    return ""
+
+
+def dict_compare(case):
+    """a list of dictionary constraints (and possibly another constraint, in any order) against the
+    NonlinearConstraint objects they stand for: same internal values, bit for bit"""
+    from cobyqa.main import _get_constraints
+    from cobyqa.problem import NonlinearConstraints
+    dicts, equiv = [], []
+    for d in case["dicts"]:
+        C = np.array(d["C"], float)
+        sh = tuple(d["args"])
+
+        def f(x, *a, _C=C):
+            return _C @ np.asarray(x, float) + float(sum(a))
+        dd = {"type": d["type"], "fun": f}
+        if sh or d.get("give_args"):
+            dd["args"] = sh
+        dicts.append(dd)
+        equiv.append(NonlinearConstraint(lambda x, _f=f, _a=sh: _f(x, *_a), 0.0, 0.0 if d["type"] == "eq" else INF))
+    other = [NonlinearConstraint(lambda x: np.array([float(np.sum(x))]), -1.0, 1.0)] if case.get("other") else []
+    mix_d = [(dicts + other)[i] for i in case["order"]]
+    mix_e = [(equiv + other)[i] for i in case["order"]]
+    xs = np.array(case["x"], float)
+    try:
+        a_ub, a_eq = NonlinearConstraints(_get_constraints(mix_d)[1], False, False)(xs)
+        b_ub, b_eq = NonlinearConstraints(_get_constraints(mix_e)[1], False, False)(xs)
+    except Exception as exc:  # noqa
+        return "dictionary constraints: exception " + type(exc).__name__ + ": " + str(exc)[:100]
+    if not (same_bits(a_ub, b_ub) and same_bits(a_eq, b_eq)):
+        return (f"dictionary constraints give internal values {np.asarray(a_ub).tolist()} / {np.asarray(a_eq).tolist()} but the constraints they "
+                f"stand for give {np.asarray(b_ub).tolist()} / {np.asarray(b_eq).tolist()}")
+    return None
+
+
 def run(chk, rng, replay=None):
     ok, info = proof_stage(chk, MODULES)
     n_cases = 400 if chk.tier == "quick" else 10000
-    if replay is not None:
+    if replay is not None and replay["objs"] and ("dicts" in replay["objs"][0] or "problem" in replay["objs"][0]):
+        groups = []
+    elif replay is not None:
         groups = [replay["objs"]]
         for o in groups[0]:
             o["lims"] = [tuple(float(v) for v in p) for p in o["lims"]]
@@ -123,7 +188,7 @@ def run(chk, rng, replay=None):
             flat = " ".join(f"{f2b(l)} {f2b(u)}" for l, u in o["lims"])
             reqs.append("splitlin | " + flat)
             reqs.append(f"splitnl {len(o['lims'])} | " + flat + " " + " ".join(str(f2b(v)) for v in o["w"]))
-    ans = iter(driver(reqs))
+    ans = iter(driver(reqs) if reqs else [])
     mism, specfail = [], []
     patt = set()
     n_rows = n_eqs = 0
@@ -185,6 +250,56 @@ def run(chk, rng, replay=None):
                     specfail.append((objs, f"largest internal violation {internal!r} differs from the amount by which the values leave their limits {truth!r}"))
             except Exception as exc:  # noqa
                 specfail.append((objs, "exception " + type(exc).__name__ + ": " + str(exc)[:100]))
+        # dictionary constraints: {"type": "ineq"/"eq", "fun", "args"} must be the constraint lb = 0, ub = inf / 0 on ITS OWN
+        # function and arguments, whatever else is in the list
+        from cobyqa.main import _get_constraints
+        from cobyqa.problem import NonlinearConstraints
+        n_dict = 0
+        dict_cases = []
+        if replay is not None and replay["objs"] and "dicts" in replay["objs"][0]:
+            dict_cases = [replay["objs"][0]]
+        elif replay is None:
+            for _ in range(60 if chk.tier == "quick" else 1500):
+                k = int(rng.integers(1, 4))
+                n = int(rng.integers(1, 4))
+                desc = [{"type": "eq" if rng.random() < 0.4 else "ineq", "C": np.round(rng.normal(size=(int(rng.integers(1, 3)), n)), 3).tolist(),
+                         "args": [float(v) for v in np.round(rng.normal(size=int(rng.integers(0, 3))), 3)], "give_args": bool(rng.random() < 0.5)} for _ in range(k)]
+                other = bool(rng.random() < 0.4)
+                dict_cases.append({"dicts": desc, "x": np.round(rng.normal(size=n), 3).tolist(), "other": other,
+                                   "order": [int(i) for i in rng.permutation(k + int(other))]})
+        for case in dict_cases:
+            n_dict += 1
+            what = dict_compare(case)
+            if what:
+                specfail.append(([case], what))
+        # the same statement one level up: inside a Problem the linear rows are rewritten for the variables that are
+        # left after removing those fixed by equal bounds and, with scale=True, for the unit box; the violation the
+        # solver computes at an internal point must still be the amount by which A x leaves [lb, ub] at the user's point
+        n_pb = 0
+        pcases = []
+        if replay is not None and replay["objs"] and "problem" in replay["objs"][0]:
+            pcases = [replay["objs"][0]["problem"]]
+        elif replay is None:
+            for objs in groups[: (120 if chk.tier == "quick" else 3000)]:
+                n = len(objs[0]["A"][0])
+                if any(np.isnan(np.array(o["A"], float)).any() for o in objs):
+                    continue
+                lo = np.round(rng.uniform(-3, -1, n), 2)
+                hi = lo + np.round(rng.uniform(1, 4, n), 2)
+                fixed = rng.random(n) < 0.35
+                if fixed.all():
+                    fixed[int(rng.integers(n))] = False
+                hi = np.where(fixed, lo, hi)
+                pcases.append({"objs": objs, "lo": lo.tolist(), "hi": hi.tolist(), "scale": bool(rng.random() < 0.4),
+                               "x0": np.round(rng.uniform(-4, 4, n), 2).tolist(),        # need not agree with the fixed values: x0 is projected
+                               "u": rng.uniform(0, 1, n).tolist()})
+        for pc in pcases:
+            r = problem_level(pc)
+            if r is None:
+                continue
+            n_pb += 1
+            if r:
+                specfail.append(([{"problem": pc}], r))
         # bounds sanitising
         from cobyqa.problem import BoundConstraints
         nb = 0
@@ -194,10 +309,10 @@ def run(chk, rng, replay=None):
             if not (bc.xl[0] == (-INF if lb != lb else lb) and bc.xu[0] == (INF if ub != ub else ub)):
                 specfail.append(([{"lims": [(lb, ub)], "A": [[1.0]], "w": [0.0], "broadcast": None}], "NaN bound is not treated as no bound"))
     chk.coverage.update({
-        "evaluations": len(groups), "distinct_nontrivial": len({repr(g) for g in groups}),
+        "evaluations": len(groups) + len(dict_cases), "distinct_nontrivial": len({repr(g) for g in groups}) + len({repr(c) for c in dict_cases}),
         "rule": "constraint lists of 1-3 objects with 1-4 components; limits drawn from the pattern lattice {(-inf,inf),(-inf,u),(l,inf),(l,u),equal,nextafter-equal,nearly equal,NaN on either or both sides, ±tiny, large} optionally rescaled over 12 decades, scalar-broadcast limits through _get_constraints, NaN coefficients; all pairs of patterns for a two-component object; values on a lattice incl. exactly at the limits. Wrong-sign infinities (ub=-inf, lb=+inf) and crossed limits are contradictory inputs outside the property and are not generated. Distinct by content; every case is non-trivial (at least one limit).",
-        "samples": [groups[-1]], "limit_patterns_seen": len(patt), "inequality_rows": n_rows, "equality_rows": n_eqs,
-        "bound_patterns": nb, "correspondence_mismatches": len(mism),
+        "samples": [groups[-1]] if groups else (dict_cases[:1] or pcases[:1]), "limit_patterns_seen": len(patt), "inequality_rows": n_rows, "equality_rows": n_eqs,
+        "bound_patterns": nb, "dictionary_constraint_lists": n_dict, "problem_level_cases_with_fixed_variables_or_scaling": n_pb, "correspondence_mismatches": len(mism),
     })
     chk.assumptions += ["theorems are over exact rationals (set of residuals = set of excesses; equality rows within (ub-lb)/2); the Float run of the same definitions is compared exactly with problem.py",
                         "wrong-sign infinite limits and crossed limits are excluded (contradictory inputs)"]
